@@ -17,12 +17,34 @@ Decided:
          connection of the same side with `child_layer.stream_id(<same side>)`, payload = the command's data; OpenConnection
          allocates the server id with is_client=True and the client stream's directionality, binds it and registers
          it in `server_stream_ids`.
+  R30.4  (seed C30a) the stream-id maps only grow.  Use classification of EVERY occurrence of `client_stream_ids` /
+         `server_stream_ids` in the repository, also through local aliases (`stream_ids = A if c else B`, `for m in
+         (A, B)`): the attributes are bound once, in `RawQuicLayer.__init__`, to an empty dict; entries are only looked
+         up, tested for membership, iterated or stored; nothing removes an entry (`pop` / `popitem` / `clear` / `del
+         m[k]` / `__delitem__`) or re-binds / deletes the attribute.  Necessary for "every client stream is relayed to
+         exactly ONE server stream ... for any interleaving": QUIC never reuses a stream id, but events for an id may
+         still arrive after both halves finished (RESET_STREAM racing with / answering a FIN or STOP_SENDING, late
+         data); membership in these maps is the ONLY thing that lets `_handle_event` attribute such an event to the
+         layer that owns the id (R30.2 shows creation is decided by `event.stream_id in stream_ids`), so a forgotten
+         id makes the late event create a second layer and a second paired stream.  A map that escapes (passed to a
+         callee that is no pure builtin, stored elsewhere, returned) is not modelled -> exit 2.
+  R30.5  (seed C30b) decision table of the two halves' initial capabilities, by finite evaluation (pyint) of the ASTs of
+         `QuicStreamLayer.__init__` (client half) and `QuicStreamLayer.open_server_stream` (server half) for stream ids
+         of all four (initiator, directionality) classes x every state the *other* connection / the copied real
+         connection can be in at that moment: bidirectional -> OPEN / OPEN; unidirectional client-initiated -> client
+         CAN_READ, server CAN_WRITE; unidirectional server-initiated -> client CAN_WRITE, server CAN_READ (RFC 9000
+         s.2.1: only the initiator sends) - a function of the id class ALONE.  Necessary because `event_to_child`
+         forwards SendData / FIN only under `state & CAN_WRITE` and the child relays / finishes by CAN_READ: a half
+         whose capability depends on what already happened on the other half (e.g. the client's FIN processed before
+         the server stream is opened) silently drops the stream's data and FIN, or writes on a receive-only stream.
+         `ConnectionState` members are read from mitmproxy/connection.py.
 NOT decided: aioquic's stream state machine, flow control, datagrams.
 """
 
 from __future__ import annotations
 
 import ast
+import enum
 import itertools
 
 from ..core import AnalysisError
@@ -32,6 +54,9 @@ from ..model import last_attr
 from ..paths import C
 from ..paths import is_const
 from ..paths import traces_of
+from ..pyint import Interp
+from ..pyint import Raised as PyRaised
+from ..pyint import Rec
 from ..selftest import Mutant
 from ._helpers_D import attr_of
 from ._helpers_D import Concrete
@@ -44,10 +69,13 @@ PROP = "C30"
 REG = {
     "strength": "partial",
     "technique": "finite evaluation of the stream-id allocator AST + symbolic path analysis (case split on direction) of stream registration "
-    "and of the command translation in RawQuicLayer",
+    "and of the command translation in RawQuicLayer + repository-wide use classification of the stream-id maps (grow-only) + decision table "
+    "of the stream halves' initial capabilities (pyint evaluation over id classes x states of the other half)",
     "claim": "allocated stream ids are unique with correct initiator/direction bits; a new stream creates exactly one layer registered under "
     "the paired ids of the same directionality; events are routed via the map of their own side; commands on a stream's virtual connection "
-    "are translated to the real connection of the same side with that side's stream id; resets hit only the paired stream id.",
+    "are translated to the real connection of the same side with that side's stream id; resets hit only the paired stream id; a registered "
+    "stream id is never forgotten (late events cannot create a second stream); each half's read/write capability is a function of the "
+    "stream id class alone (RFC 9000 table), independent of what already happened on the other half.",
     "note": "stream_is_unidirectional / stream_is_client_initiated are aioquic library predicates (opaque, assumed to implement RFC 9000 bits); "
     "event.stream_id and allocated ids are ints (never None). Loops unrolled once.",
 }
@@ -367,16 +395,381 @@ def check_r303(ctx):
             ctx.require(seen[k] >= n, f"event_to_child: only {seen[k]} '{k}' paths analysed (expected >= {n})")
 
 
+# ---------------------------------------------------------------------------------------------------
+# R30.4: the stream-id maps only grow
+
+MAPS = ("client_stream_ids", "server_stream_ids")
+REMOVERS = {"pop", "popitem", "clear", "__delitem__"}
+READERS = {"get", "items", "keys", "values", "copy", "__contains__", "__getitem__", "__len__", "__iter__"}
+ADDERS = {"setdefault", "update", "__setitem__"}
+PURE_CALLEES = {"len", "list", "sorted", "iter", "bool", "dict", "tuple", "set", "frozenset", "any", "all", "max", "min", "repr", "str", "enumerate", "reversed", "print", "isinstance"}
+TRANSPARENT = (ast.IfExp, ast.BoolOp, ast.NamedExpr)
+
+
+def _scope(node):
+    n = getattr(node, "_parent", None)
+    while n is not None and not isinstance(n, (ast.FunctionDef, ast.AsyncFunctionDef, ast.Lambda)):
+        n = getattr(n, "_parent", None)
+    return n
+
+
+def _qual(node):
+    n = node
+    while n is not None and not hasattr(n, "_qual"):
+        n = getattr(n, "_parent", None)
+    return getattr(n, "_qual", "<module>") if n is not None else "<module>"
+
+
+class MapUses:
+    """classification of every occurrence of the stream-id maps in one module"""
+
+    def __init__(self, mod):
+        self.mod = mod
+        self.aliases = {}  # scope node -> {local name: set of map names}
+        self.nodes = list(ast.walk(mod.tree))
+        self._fix_aliases()
+
+    def maps_of(self, e, scope):
+        """the maps an expression may evaluate to (empty: none)"""
+        if isinstance(e, ast.Attribute) and e.attr in MAPS:
+            return {e.attr}
+        if isinstance(e, ast.Name):
+            return set(self.aliases.get(scope, {}).get(e.id, ()))
+        if isinstance(e, ast.IfExp):
+            return self.maps_of(e.body, scope) | self.maps_of(e.orelse, scope)
+        if isinstance(e, ast.BoolOp):
+            out = set()
+            for v in e.values:
+                out |= self.maps_of(v, scope)
+            return out
+        if isinstance(e, ast.NamedExpr):
+            return self.maps_of(e.value, scope)
+        return set()
+
+    def _bind(self, target, value, scope):
+        changed = False
+        if isinstance(target, ast.Name):
+            got = self.maps_of(value, scope)
+            if isinstance(value, (ast.Tuple, ast.List)):  # `for m in (A, B)`: handled by the caller elementwise
+                got = set()
+            cur = self.aliases.setdefault(scope, {}).setdefault(target.id, set())
+            if not got <= cur:
+                cur |= got
+                changed = True
+        elif isinstance(target, (ast.Tuple, ast.List)) and isinstance(value, (ast.Tuple, ast.List)) and len(target.elts) == len(value.elts):
+            for t, v in zip(target.elts, value.elts):
+                changed |= self._bind(t, v, scope)
+        return changed
+
+    def _fix_aliases(self):
+        for _ in range(8):
+            changed = False
+            for n in self.nodes:
+                sc = _scope(n)
+                if isinstance(n, ast.Assign):
+                    for t in n.targets:
+                        changed |= self._bind(t, n.value, sc)
+                elif isinstance(n, ast.AnnAssign) and n.value is not None:
+                    changed |= self._bind(n.target, n.value, sc)
+                elif isinstance(n, ast.NamedExpr):
+                    changed |= self._bind(n.target, n.value, sc)
+                elif isinstance(n, (ast.For, ast.AsyncFor, ast.comprehension)):
+                    it = n.iter
+                    if isinstance(it, (ast.Tuple, ast.List, ast.Set)):
+                        for v in it.elts:
+                            changed |= self._bind(n.target, v, sc)
+            if not changed:
+                return
+        raise AnalysisError(f"{self.mod.rel}: alias analysis of the stream-id maps does not converge")
+
+    def occurrences(self):
+        """(node, maps) for every expression node that denotes one of the maps: the attribute itself or a local alias"""
+        for n in self.nodes:
+            if isinstance(n, ast.Attribute) and n.attr in MAPS:
+                yield n, {n.attr}
+            elif isinstance(n, ast.Name) and not isinstance(n.ctx, ast.Store):
+                got = self.maps_of(n, _scope(n))
+                if got:
+                    yield n, got
+
+    def classify(self, n):
+        """-> (kind, text)   kind in bind | alias | read | add | remove | rebind | escape"""
+        if isinstance(n, ast.Attribute) and isinstance(n.ctx, ast.Store):
+            p = n._parent
+            if isinstance(p, ast.AnnAssign) and p.value is None:
+                return "read", "declaration"
+            if isinstance(p, (ast.Assign, ast.AnnAssign)):
+                return "bind", norm(p)
+            return "rebind", norm(p)
+        if isinstance(n.ctx, ast.Del):
+            if isinstance(n, ast.Name):
+                return "read", "local alias unbound"
+            return "remove", norm(n._parent)
+        top, p = n, n._parent
+        while isinstance(p, TRANSPARENT):
+            if isinstance(p, ast.IfExp) and p.test is top:
+                return "read", "truth value"
+            if isinstance(p, ast.NamedExpr) and p.target is top:
+                return "alias", norm(p)
+            top, p = p, p._parent
+        if isinstance(p, (ast.Assign, ast.AnnAssign)) and p.value is top:
+            tg = p.targets if isinstance(p, ast.Assign) else [p.target]
+            if all(isinstance(t, ast.Name) for t in tg):
+                return "alias", norm(p)
+            return "escape", f"stored in {norm(tg[0])}"
+        if isinstance(p, (ast.Tuple, ast.List, ast.Set)):
+            pp = p._parent
+            if isinstance(pp, (ast.For, ast.AsyncFor, ast.comprehension)) and pp.iter is p:
+                return "alias", f"for {norm(pp.target)} in {norm(p)}"
+            if isinstance(pp, ast.Assign) and pp.value is p and all(isinstance(t, (ast.Tuple, ast.List)) and len(t.elts) == len(p.elts) and all(isinstance(x, ast.Name) for x in t.elts) for t in pp.targets):
+                return "alias", norm(pp)
+            return "escape", f"put into {norm(p)[:60]}"
+        if isinstance(p, ast.Subscript) and p.value is top:
+            if isinstance(p.ctx, ast.Del):
+                return "remove", f"del {norm(p)}"
+            if isinstance(p.ctx, ast.Store):
+                if isinstance(p._parent, ast.AugAssign):
+                    return "escape", norm(p._parent)
+                return "add", norm(p._parent)
+            return "read", norm(p)
+        if isinstance(p, ast.Compare):
+            return "read", norm(p)
+        if isinstance(p, ast.Attribute) and p.value is top:
+            if p.attr in REMOVERS:
+                return "remove", norm(p)
+            pp = p._parent
+            if isinstance(pp, ast.Call) and pp.func is p:
+                if p.attr in READERS:
+                    return "read", norm(pp)
+                if p.attr in ADDERS:
+                    return "add", norm(pp)
+            return "escape", f"{norm(p)}: method not modelled"
+        if isinstance(p, ast.Call) and top is not p.func:
+            if isinstance(p.func, ast.Name) and p.func.id in PURE_CALLEES:
+                return "read", norm(p)
+            return "escape", f"passed to {norm(p.func)}"
+        if isinstance(p, (ast.For, ast.AsyncFor, ast.comprehension)) and p.iter is top:
+            return "read", "iteration"
+        if isinstance(p, (ast.If, ast.While, ast.Assert)) and p.test is top:
+            return "read", "truth value"
+        if isinstance(p, ast.UnaryOp) and isinstance(p.op, ast.Not):
+            return "read", "truth value"
+        if isinstance(p, (ast.FormattedValue, ast.Expr)):
+            return "read", "formatting"
+        if isinstance(p, ast.Delete):
+            return "remove", norm(p)
+        if isinstance(p, ast.AugAssign):
+            return "escape", norm(p)
+        return "escape", f"used in {norm(p)[:80]}"
+
+
+def is_empty_dict(v):
+    return (isinstance(v, ast.Dict) and not v.keys) or (isinstance(v, ast.Call) and isinstance(v.func, ast.Name) and v.func.id == "dict" and not v.args and not v.keywords)
+
+
+def check_r304(ctx):
+    binds = {m: [] for m in MAPS}
+    seen = {"read": 0, "add": 0, "alias": 0}
+    rels = sorted({p.relative_to(ctx.model.repo).as_posix() for p in (ctx.model.repo / "mitmproxy").rglob("*.py")} | {r for r in ctx.model.overrides if r.startswith("mitmproxy/")})
+    for rel in rels:
+        if rel.startswith("mitmproxy/contrib/") or not any(m in ctx.model.source(rel) for m in MAPS):
+            continue  # (textual pre-filter only: a module that never spells the attribute names cannot touch the maps directly)
+        mod = ctx.model.module(rel)
+        uses = MapUses(mod)
+        for n, maps in uses.occurrences():
+            kind, text = uses.classify(n)
+            qual = _qual(n)
+            where = (mod.rel, qual, n)
+            names = "/".join(sorted(maps))
+            if kind == "escape":
+                raise AnalysisError(f"{mod.rel}:{n.lineno} [{qual}] stream-id map {names} escapes the use classification of R30.4 ({text})")
+            if kind == "bind":
+                p = n._parent
+                ok = qual == "RawQuicLayer.__init__" and mod.rel == RAW and is_empty_dict(p.value) and _scope(n) is not None and all(
+                    not isinstance(a, (ast.For, ast.While, ast.If, ast.Try)) for a in _ancestors(n, _scope(n)))
+                binds[n.attr].append((mod.rel, qual, ok))
+                ctx.check(ok, "R30.4", where, f"{n.attr} is bound once, to an empty dict, in RawQuicLayer.__init__",
+                          f"`{text}` re-binds the stream-id map: every stream registered so far is forgotten, a later event for one of them creates a second stream layer",
+                          desc=f"{n.attr} initialised empty in RawQuicLayer.__init__")
+            elif kind in ("remove", "rebind"):
+                ctx.fail("R30.4", where, f"{names}: `{text}` removes registered stream ids",
+                         f"`{text}` forgets a registered stream id: QUIC never reuses stream ids, but a late event for it (RESET_STREAM after FIN, data after STOP_SENDING) "
+                         "is then no longer attributed to the layer that owns the stream - a second stream layer and a second paired stream are created")
+            else:
+                seen[kind] += 1
+                ctx.ok("R30.4", f"[{qual}] {names}: {kind}: {text[:70]}")
+    for m in MAPS:
+        if len(binds[m]) != 1 and not any(f.rule == "R30.4" for f in ctx.findings):
+            if not binds[m]:
+                raise AnalysisError(f"R30.4: no binding of {m} found (anchor moved)")
+            ctx.fail("R30.4", (binds[m][1][0], binds[m][1][1], 0), f"{m} is bound once, to an empty dict, in RawQuicLayer.__init__",
+                     f"{m} is bound {len(binds[m])} times ({[b[1] for b in binds[m]]})")
+    if not any(f.rule == "R30.4" for f in ctx.findings):
+        ctx.require(seen["add"] >= 3 and seen["read"] >= 2, f"R30.4: only {seen} uses of the stream-id maps classified (registration / lookup anchors moved)")
+
+
+def _ancestors(n, stop):
+    p = getattr(n, "_parent", None)
+    while p is not None and p is not stop:
+        yield p
+        p = getattr(p, "_parent", None)
+
+
+# ---------------------------------------------------------------------------------------------------
+# R30.5: initial capabilities of the two halves = function of the stream id class
+
+CONN = "mitmproxy/connection.py"
+
+
+def connection_state_flag(ctx):
+    """the ConnectionState Flag, rebuilt from the class body in mitmproxy/connection.py"""
+    cls = ctx.model.cls(CONN, "ConnectionState")
+    vals = {}
+
+    def ev(e):
+        if isinstance(e, ast.Constant) and isinstance(e.value, int) and not isinstance(e.value, bool):
+            return e.value
+        if isinstance(e, ast.Name) and e.id in vals:
+            return vals[e.id]
+        if isinstance(e, ast.BinOp) and isinstance(e.op, (ast.BitOr, ast.BitAnd, ast.LShift)):
+            a, b = ev(e.left), ev(e.right)
+            return a | b if isinstance(e.op, ast.BitOr) else (a & b if isinstance(e.op, ast.BitAnd) else a << b)
+        raise AnalysisError(f"ConnectionState member value not modelled: {norm(e)}")
+
+    for st in cls.body:
+        if isinstance(st, ast.Assign) and len(st.targets) == 1 and isinstance(st.targets[0], ast.Name):
+            vals[st.targets[0].id] = ev(st.value)
+    ctx.require({"CLOSED", "CAN_READ", "CAN_WRITE", "OPEN"} <= set(vals), f"ConnectionState members changed: {sorted(vals)}")
+    r, w = vals["CAN_READ"], vals["CAN_WRITE"]
+    ctx.require(vals["CLOSED"] == 0 and r and w and not (r & w) and vals["OPEN"] == r | w and bin(r).count("1") == 1 and bin(w).count("1") == 1,
+                f"ConnectionState is no longer CLOSED=0 / two distinct bits / OPEN = both: {vals}")
+    return enum.Flag("ConnectionState", {k: v for k, v in vals.items()})
+
+
+class _Clock:
+    @staticmethod
+    def time():
+        return 1.0
+
+
+def half_table(CS):
+    """(unidirectional, client_initiated) -> (client half, server half)    RFC 9000 s.2.1: only the initiator of a unidirectional stream sends"""
+    return {
+        (False, True): (CS.OPEN, CS.OPEN),
+        (False, False): (CS.OPEN, CS.OPEN),
+        (True, True): (CS.CAN_READ, CS.CAN_WRITE),
+        (True, False): (CS.CAN_WRITE, CS.CAN_READ),
+    }
+
+
+def substates(CS, s):
+    """the states a connection that started in ``s`` can be in later (capabilities are only ever removed)"""
+    return [x for x in (CS.OPEN, CS.CAN_READ, CS.CAN_WRITE, CS.CLOSED) if (x & s) == x]
+
+
+def _interp(ctx, CS, extra_externals=None):
+    it = Interp(ctx.model, trusted_modules={"time": _Clock}, externals=extra_externals or {}, max_steps=20000)
+    it.overrides[(RAW, "stream_is_unidirectional")] = lambda sid: bool(sid & 2)
+    it.overrides[(RAW, "stream_is_client_initiated")] = lambda sid: not (sid & 1)
+    return it
+
+
+def check_r305(ctx):
+    CS = connection_state_flag(ctx)
+    table = half_table(CS)
+    qi = ctx.func(RAW, "QuicStreamLayer.__init__")
+    qo = ctx.func(RAW, "QuicStreamLayer.open_server_stream")
+    ctx.require([a.arg for a in qo.args.args] == ["self", "server_stream_id"], "open_server_stream signature changed")
+    ctx.require([a.arg for a in qi.args.args] == ["self", "context", "force_raw", "stream_id"], "QuicStreamLayer.__init__ signature changed")
+    ids = {cls: [b, b + 4, b + 4 * 37] for cls, b in (((False, True), 0), ((False, False), 1), ((True, True), 2), ((True, False), 3))}
+    name = {(False, True): "bidirectional client-initiated", (False, False): "bidirectional server-initiated",
+            (True, True): "unidirectional client-initiated", (True, False): "unidirectional server-initiated"}
+    n = 0
+
+    # --- server half: open_server_stream(server_stream_id), the client half being in any state it can have reached
+    bad = {}
+    for cls, sids in ids.items():
+        for sid in sids:
+            for cstate in substates(CS, table[cls][0]):
+                for sprev in (CS.CLOSED,):
+                    it = _interp(ctx, CS, {"self.refresh_metadata": lambda: None})
+                    it.overrides[(RAW, "connection")] = Rec("connection", ConnectionState=CS)
+                    me = Rec("QuicStreamLayer", _impl=(RAW, "QuicStreamLayer"), _client_stream_id=sid ^ 0, _server_stream_id=None,
+                             client=Rec("Client", state=cstate, timestamp_start=1.0, timestamp_end=None),
+                             server=Rec("Server", state=sprev, timestamp_start=None, timestamp_end=None), child_layer=None)
+                    try:
+                        it.method(me, "open_server_stream", sid)
+                    except PyRaised as r:
+                        raise AnalysisError(f"open_server_stream({sid}) raises {r.name} in the R30.5 evaluation (not modelled)")
+                    n += 1
+                    got = me.server.state
+                    if not isinstance(got, CS):
+                        raise AnalysisError(f"open_server_stream leaves server.state = {got!r} (no ConnectionState)")
+                    if got != table[cls][1]:
+                        bad.setdefault(name[cls], (sid, cstate, got, table[cls][1]))
+    for k, (sid, cstate, got, want) in bad.items():
+        ctx.fail("R30.5", (RAW, "QuicStreamLayer.open_server_stream", qo), f"server half of a {k} stream starts as {want.name}",
+                 f"open_server_stream({sid}) while the client half is {cstate.name} leaves server.state = {got.name}, expected {want.name}: "
+                 + ("event_to_child drops SendData and the FIN for a connection without CAN_WRITE - the stream's data never reaches the paired server stream"
+                    if (want & CS.CAN_WRITE) and not (got & CS.CAN_WRITE) else "the capability of a half must follow from the stream id class alone (RFC 9000 s.2.1)"))
+    if not bad:
+        ctx.ok("R30.5", f"open_server_stream: server half = f(id class) for {n} (server id, client state) cases: bidi OPEN, uni client-initiated CAN_WRITE, uni server-initiated CAN_READ")
+
+    # --- client half: __init__(context, force_raw, stream_id), the real client connection being in any state
+    bad = {}
+    m = 0
+    for cls, sids in ids.items():
+        for sid in sids:
+            for real in (CS.OPEN, CS.CAN_READ, CS.CAN_WRITE, CS.CLOSED):
+                child = Rec("ChildLayer", handle_event="handle_event", _handle_event="_handle_event", flow=None, layer=None)
+                it = _interp(ctx, CS, {"self.refresh_metadata": lambda: None, "super().__init__": lambda *a, **k: None,
+                                       "TCPLayer": lambda *a, **k: child, "QuicStreamNextLayer": lambda *a, **k: child})
+
+                def server_conn(**kw):
+                    return Rec("Server", state=CS.CLOSED, timestamp_start=None, timestamp_end=None, **{k: v for k, v in kw.items() if k not in ("state",)})
+
+                it.overrides[(RAW, "connection")] = Rec("connection", ConnectionState=CS, Server=server_conn)
+
+                def client_copy(real=real):
+                    return Rec("Client", state=real, transport_protocol="udp", timestamp_start=1.0, timestamp_end=None)
+
+                context = Rec("Context", client=Rec("Client", state=real, transport_protocol="udp", copy=client_copy),
+                              server=Rec("Server", address=("example", 443), state=CS.OPEN), layers=[], options=None)
+                me = Rec("QuicStreamLayer", _impl=(RAW, "QuicStreamLayer"))
+                try:
+                    it.method(me, "__init__", context, True, sid)
+                except PyRaised as r:
+                    raise AnalysisError(f"QuicStreamLayer.__init__(stream_id={sid}) raises {r.name} in the R30.5 evaluation (not modelled)")
+                m += 1
+                cl = me.__dict__.get("client")
+                got = getattr(cl, "state", None) if isinstance(cl, Rec) else None
+                if not isinstance(got, CS):
+                    raise AnalysisError(f"QuicStreamLayer.__init__ leaves client.state = {got!r} (no ConnectionState)")
+                if got != table[cls][0]:
+                    bad.setdefault(name[cls], (sid, real, got, table[cls][0]))
+    for k, (sid, real, got, want) in bad.items():
+        ctx.fail("R30.5", (RAW, "QuicStreamLayer.__init__", qi), f"client half of a {k} stream starts as {want.name}",
+                 f"QuicStreamLayer(stream_id={sid}) with the QUIC client connection {real.name} leaves client.state = {got.name}, expected {want.name}: "
+                 "the capability of a half must follow from the stream id class alone (RFC 9000 s.2.1); event_to_child sends only under CAN_WRITE, the child finishes by CAN_READ")
+    if not bad:
+        ctx.ok("R30.5", f"QuicStreamLayer.__init__: client half = f(id class) for {m} (client id, real connection state) cases: bidi OPEN, uni client-initiated CAN_READ, uni server-initiated CAN_WRITE")
+    ctx.cells += n + m
+
+
 def check(ctx):
     ctx.rule("R30.1", "allocated stream ids: unique, initiator bit and directionality bit as requested (finite evaluation of all short sequences)")
     ctx.rule("R30.2", "one layer per new stream, registered under paired ids of the same directionality; routing by own side's map; reset only on the paired id")
     ctx.rule("R30.3", "commands on a stream's virtual connection are translated to the real connection / stream id of the same side; OpenConnection pairs the server id")
+    ctx.rule("R30.4", "the stream-id maps only grow: bound once (empty) in RawQuicLayer.__init__, no removal / re-binding anywhere (late events must find the owning layer)")
+    ctx.rule("R30.5", "initial read/write capability of a stream's client and server half is the RFC 9000 function of the stream id class alone")
     ctx.assume("stream ids are ints (event.stream_id and allocator results are never None)")
     ctx.trust("aioquic stream_is_unidirectional / stream_is_client_initiated implement the RFC 9000 id bits")
     check_r301(ctx)
     check_r302(ctx)
     check_r303(ctx)
-    for rule, n in (("R30.1", 2), ("R30.2", 15), ("R30.3", 7)):
+    ctx.guard(check_r304, ctx)
+    ctx.guard(check_r305, ctx)
+    for rule, n in (("R30.1", 2), ("R30.2", 15), ("R30.3", 7), ("R30.4", 9), ("R30.5", 2)):
         if not any(f.rule == rule for f in ctx.findings):
             ctx.expect_instances(rule, n)
 
@@ -408,5 +801,22 @@ MUTANTS = [
     Mutant("open-allocates-server-initiated-id", RAW, "                    stream_id = self.get_next_available_stream_id(\n                        is_client=True,", "                    stream_id = self.get_next_available_stream_id(\n                        is_client=False,", "R30.3"),
     Mutant("open-directionality-lost", RAW, "                        is_client=True,\n                        is_unidirectional=stream_is_unidirectional(client_stream_id),\n", "                        is_client=True,\n", "R30.3"),
     Mutant("open-not-registered", RAW, "                    self.server_stream_ids[stream_id] = child_layer\n", "", "R30.3"),
+    # R30.4 (first = the essence of seed C30a)
+    Mutant("finished-stream-forgotten", RAW, "            yield from self.event_to_child(stream_layer, events.ConnectionClosed(conn))\n",
+           "            yield from self.event_to_child(stream_layer, events.ConnectionClosed(conn))\n            if stream_layer.client.timestamp_end and stream_layer.server.timestamp_end:\n"
+           "                self.client_stream_ids.pop(stream_layer.stream_id(client=True), None)\n                self.server_stream_ids.pop(stream_layer.stream_id(client=False), None)\n", "R30.4"),
+    Mutant("reset-stream-deleted-through-alias", RAW, "                # preserve stream resets\n", "                del stream_ids[event.stream_id]\n", "R30.4"),
+    Mutant("server-map-rebound-on-connection-close", RAW, "            other_conn = self.context.server if from_client else self.context.client\n",
+           "            other_conn = self.context.server if from_client else self.context.client\n            if not from_client:\n                self.server_stream_ids = {}\n", "R30.4"),
+    Mutant("maps-cleared-in-a-loop", RAW, "            other_conn = self.context.server if from_client else self.context.client\n",
+           "            other_conn = self.context.server if from_client else self.context.client\n            for ids in (self.client_stream_ids, self.server_stream_ids):\n                ids.clear()\n", "R30.4"),
+    # R30.5 (first = the essence of seed C30b)
+    Mutant("server-half-mirrors-current-client-state", RAW, "                if stream_is_client_initiated(server_stream_id)\n", "                if self.client.state & connection.ConnectionState.CAN_READ\n", "R30.5"),
+    Mutant("server-half-capabilities-swapped", RAW, "                connection.ConnectionState.CAN_WRITE\n                if stream_is_client_initiated(server_stream_id)\n                else connection.ConnectionState.CAN_READ\n",
+           "                connection.ConnectionState.CAN_READ\n                if stream_is_client_initiated(server_stream_id)\n                else connection.ConnectionState.CAN_WRITE\n", "R30.5"),
+    Mutant("server-half-always-open", RAW, "            if stream_is_unidirectional(server_stream_id)\n            else connection.ConnectionState.OPEN\n", "            if False\n            else connection.ConnectionState.OPEN\n", "R30.5"),
+    Mutant("client-half-capabilities-swapped", RAW, "                connection.ConnectionState.CAN_READ\n                if stream_is_client_initiated(stream_id)\n                else connection.ConnectionState.CAN_WRITE\n",
+           "                connection.ConnectionState.CAN_WRITE\n                if stream_is_client_initiated(stream_id)\n                else connection.ConnectionState.CAN_READ\n", "R30.5"),
+    Mutant("client-half-inherits-real-connection-state", RAW, "        self.client.state = connection.ConnectionState.OPEN\n", "", "R30.5"),
     Mutant("senddata-payload-dropped", RAW, "                        yield SendQuicStreamData(quic_conn, stream_id, command.data)\n", "                        yield SendQuicStreamData(quic_conn, stream_id, b\"\")\n", "R30.3"),
 ]
